@@ -5,7 +5,7 @@ import logging
 import weakref
 from typing import TYPE_CHECKING
 
-from claripy import Or, backends
+from claripy import Or, backends, false
 from claripy.ast import Base
 from claripy.errors import BackendError, UnsatError
 
@@ -294,6 +294,9 @@ class CompositeFrontend(ConstrainedFrontend):
                 try:
                     if any(backends.concrete.convert(c) is False for c in set_constraints):
                         self._unsat = True
+                        # no child can hold a constraint without variables; keep it in self.constraints, which is what
+                        # combine() reads
+                        child_added.append(false())
                 except BackendError:
                     unsure.extend(set_constraints)
             else:
@@ -481,6 +484,10 @@ class CompositeFrontend(ConstrainedFrontend):
             return self._merge_with_ancestor(common_ancestor, merge_conditions)
 
         log.debug("Merging %s with %d other solvers.", self, len(others))
+        # a solver that was given a concretely false constraint only remembers it in _unsat, none of its children does
+        merge_conditions = [
+            false() if cs._unsat else c for cs, c in zip([self, *others], merge_conditions, strict=False)
+        ]
         merged = self.blank_copy()
         common_solvers = self._shared_solvers(others)
         common_ids = {id(s) for s in common_solvers}
@@ -518,4 +525,9 @@ class CompositeFrontend(ConstrainedFrontend):
         return True, merged
 
     def split(self):
-        return [s.branch() for s in self._solver_list]
+        results = [s.branch() for s in self._solver_list]
+        if self._unsat:
+            s = self._template_frontend.blank_copy()
+            s.add([false()])
+            results.append(s)
+        return results
